@@ -50,6 +50,24 @@ def _row_of_own_mailbox(model, p, term):
     return False
 
 
+def _close_name_attrs(model):
+    """the connection attribute(s) the close handler compares the named mailbox
+    with (whatever they are called), plus the close handler's own name"""
+    from ..terms import walk
+    from ..events import is_client_value
+    h = handler_for(model, "close")
+    out = set([h])
+    for p in handler_paths(model, h):
+        for (tt, b, site) in p.pc:
+            for x in walk(tt):
+                if isinstance(x, tuple) and x and x[0] == "cmp" and x[1] in ("==", "!="):
+                    for a, o in ((x[2], x[3]), (x[3], x[2])):
+                        if a[0] == "attr" and a[1][0] == "obj" and \
+                                a[1][1] == "WebSocketServer" and is_client_value(o):
+                            out.add(a[2])
+    return out
+
+
 def run(ctx):
     model = ctx.model
     shared.import_rule(ctx, "C17", ("R17.names",), "R08.names",
@@ -57,7 +75,8 @@ def run(ctx):
                        "can still be accepted (same rule instances as R17.names)",
                        "a close that relies on the remembered name (no `mailbox` field) is "
                        "answered with an error instead of `closed`", minimum=1,
-                       only=lambda o: "mailbox" in o.construct)
+                       only=lambda o, _a=_close_name_attrs(model): any(
+                           a in o.construct for a in _a))
     from .. import roles as _rm3
     shared.r_nocfg(ctx, "R08.nocfg", _rm3.get(model).close_op,
                    "under the other setting the close leaves rows, the Mailbox object or its "
